@@ -5,10 +5,10 @@ import math
 import operator
 
 from .. import gen
-from ..attach import observe
+from ..attach import observe, inputs_changed, attrs_changed
 from ..predprobe import gen_pred_case
 from ..rateprobe import run_case, exc_detail, aim_at_floor_window
-from ..util import KIND, MODEL_NAMES, build, models
+from ..util import KIND, MODEL_NAMES, build, models, make_sub
 from .c13 import _Variants
 
 PROPERTY = "C19"
@@ -163,7 +163,11 @@ def probe_grammar(ctx, payload):
     V = _Variants(case)
 
     def outcome(o):
-        return "ok" if o.exc is None else type(o.exc).__name__
+        # a rejected call that has ALREADY modified a rating or the model is a different behaviour from one that has not
+        # (exception class alone does not show a validation step moved behind the tau inflation in one copy)
+        if o.exc is None:
+            return "ok"
+        return type(o.exc).__name__ + ("+ratings-modified" if inputs_changed(o) else "") + ("+model-modified" if attrs_changed(o) or o.writes else "")
 
     def each(label, op, mk):
         outs = {}
@@ -377,6 +381,31 @@ def probe_rclass(ctx, payload):
                 pat.append("hashable")
             except Exception as e:  # noqa: BLE001
                 pat.append(type(e).__name__)
+        # instances of application-side subclasses of the rating class (inherited constructor / own constructor signature)
+        RC = type(rs[0])
+        for which in (0, 1):
+            try:
+                sb = make_sub(RC, which, vals[0][0], vals[0][1], "sub")
+                pat += [bool(sb == rs[0]), bool(rs[0] == sb), hash(sb) == hash(rs[0])]
+                for fn in (operator.lt, operator.ge):
+                    for x, y in ((sb, rs[1]), (rs[1], sb), (sb, sb)):
+                        try:
+                            pat.append(bool(fn(x, y)))
+                        except Exception as e:  # noqa: BLE001
+                            pat.append(type(e).__name__)
+                try:
+                    c = copy.deepcopy(sb)
+                    pat += ["deepcopy ok", type(c) is type(sb), type(c) is RC, c.mu == sb.mu and c.sigma == sb.sigma, c.name == sb.name,
+                            c.id == sb.id, c == sb]
+                except Exception as e:  # noqa: BLE001
+                    pat.append("deepcopy " + type(e).__name__)
+                try:
+                    c = copy.deepcopy([[sb, rs[1]]])[0][0]
+                    pat += [type(c) is RC, c.mu == sb.mu and c.sigma == sb.sigma]
+                except Exception as e:  # noqa: BLE001
+                    pat.append("nested deepcopy " + type(e).__name__)
+            except Exception as e:  # noqa: BLE001
+                pat.append("subclass " + type(e).__name__)
         nested = [[rs[0], rs[1]], [rs[2], rs[0]]]
         dc = copy.deepcopy(nested)
         pat += [dc[0][0].id == rs[0].id, dc[1][1].id == rs[0].id, dc[0][0] is not rs[0], len(dc) == 2]
